@@ -133,8 +133,29 @@ def bounded(res):
     res.coverage['bounded_note'] = 'BOUNDED stand-in for the parts of the property not under a discharged contract (dict and string differs, the dispatcher); never counted as proved'
 
 
+def kit_s_part(res):
+    """interface obligations of the (assumed) string differ / patcher: same line cutting on both sides, results wired through"""
+    from contracts import kit_e
+    sites = kit_e.kit_s_split_obligations(common.REPO)
+    if not sites:
+        raise common.CheckerDefect('no line-cutting obligations generated')
+    res.obligations += len(sites)
+    bad = [t for t, ok in sites if not ok]
+    res.discharged += len(sites) - len(bad)
+    res.backends['call-shape scan(syntactic)'] = res.backends.get('call-shape scan(syntactic)', 0) + len(sites) - len(bad)
+    res.functions['<line cutting of diff_strings_linewise / flatten_list_of_string_diff>'] = 'proved' if not bad else 'failed'
+    for t in bad[:3]:
+        res.violation('string interface obligation fails: %s' % t, {'obligation': 'line-cutting agreement', 'kind': 'failed-shape-obligation', 'text': t},
+                      no_input=True)
+    for q, table, posts, dr in kit_e.KIT_S_JOBS:
+        failed = common.prove_paths(res, q, table, posts, default_raises=dr)
+        if failed:
+            common.report_path_failures(res, failed)
+
+
 def run(res):
     common.prove(res, KIT_L)
+    kit_s_part(res)
     bounded(res)
     res.coverage['explanation'] = (
         'Proof part: %d obligations generated from the current source of %d real functions (and lemmas) under sidecar contracts, '
